@@ -25,6 +25,12 @@ CHECKS = {
  "C04": dict(cat="fault_enumeration", tech="kill injection at database system calls via strace (signal=KILL on entry to the N-th call), then invariant checks over the file and monitored continuation builds",
              text="One engine build per process; for each build of each history the process is killed before the N-th system call touching the SQLite file or its journal (quick: calls around fdatasync/unlink/lock transitions + random; thorough: every N), then integrity_check, I1 epoch order, I2 dependency ids resolve, I3 every stored (key,value,deps) is the pre-build row or an execution logged by the killed run, I4 three continuation builds under the C01/C02 monitors.",
              note="Process kill, not power loss; kills land between system calls; strace -P selects the calls; sqlite3 trusted.", ref="4/C04"),
+ "C15": dict(cat="exploration", tech="runtime oracle over generated keys/values on the real codec (ASan+UBSan build) + valgrind memcheck subset",
+             text="Every BuildKey kind (names/payloads over all byte values incl. NUL, 0..5 NUL-free filters) and every BuildValue kind (1..6 output infos with all seven FileInfo fields random, signatures, 0..6 strings incl. empty) is made through the public constructors; every accessor of fromData(toData(x)) is compared with the logical model, re-encoding of decoded values and of copies/moves must be identical, one single-field mutation per case must change the encoding, a per-shard encoding->model map catches accidental collisions, kind tags are checked distinct and invertible.",
+             note="Only encoder output is decoded; only contract-respecting values are generated; short keys live in std::string SSO storage, so a short over-read there is invisible to ASan; memcheck sees a few thousand cases on the plain flavor.", ref="4/C15"),
+ "C17": dict(cat="exploration", tech="differential runtime monitor: generated valid Ninja manifest trees loaded by llbuild (ASan/UBSan) vs the installed ninja 1.11.1 and a reference evaluator written from the manual; shell-quoting round trip through /bin/sh",
+             text="Every build statement of every generated manifest tree (scoping, lazy rule variables, escapes, continuations incl. CR LF, include/subninja to depth 3 with shadowing and parent rules, keyword-like identifiers, all bytes 0x80..0xFF, hostile path alphabets) must have the outputs, three input classes, rule, expanded command, description, deps/depfile, pool, flags, rspfile and rspfile_content that ninja shows or, where ninja shows nothing, the reference computes; every quoted path and random byte strings must read back unchanged through /bin/sh -c 'printf %s <escaped>'.",
+             note="Only valid manifests inside the property's premises; `default` statements are not build statements and are written literally and not judged; quoting of $in/$out in description and rspfile_content is not judged; ninja-vs-reference disagreements are discarded and counted.", ref="4/C17"),
  "C20": dict(cat="exploration", tech="differential runtime monitor: same generated histories through core.h and through the C++ engine interface, traces compared event by event",
              text="Each history runs once through BuildEngine/Rule/Task and once only through llb_buildengine_*/llb_task_*; per-build traces on the shared vocabulary must be identical, both runs are monitored (M-proto/M-value/M-justify) and the DB written via the C interface is read back independently.",
              note="Single-use requests, prior values, run reasons and rule signatures do not exist in the C interface; db.h and Swift bindings not covered.", ref="4/C20"),
